@@ -807,6 +807,21 @@ func RuleKReval(c *core.Ctx) {
 			continue
 		}
 		desc := revalSkipKind(p, iff.Cond, it)
+		// a test of the sign of one decimal (the quantity, the price difference):
+		// decided on the sign domain — the position may be skipped only when that
+		// decimal is zero
+		if skipNeg, skipPos, ok := signSkip(iff, it.header); ok {
+			switch {
+			case skipNeg && skipPos:
+				desc = "unreviewed sign test (skips negative and positive values)"
+			case skipNeg:
+				desc = "unreviewed sign test (skips negative values)"
+			case skipPos:
+				desc = "unreviewed sign test (skips positive values)"
+			default:
+				desc = "zero quantity or unchanged price"
+			}
+		}
 		k2 := fname + ":skip condition " + desc
 		if strings.HasPrefix(desc, "unreviewed") {
 			c.Ob(rule, k2, core.NearPos(iff), fname, core.Violated, "a position is skipped by the daily revaluation for a reason outside the reviewed set (valuation commodity itself, not an asset/liability account, zero quantity, unchanged price): "+describeValue(p, iff.Cond)+" — that position is never marked to market")
@@ -891,6 +906,105 @@ func revalSkipKind(p *core.Prog, cond ssa.Value, it *iteration) string {
 		return "unreviewed " + x.Op.String() + " comparison"
 	}
 	return "unreviewed condition"
+}
+
+// signSkip evaluates a condition that tests the sign of one decimal value for
+// the signs -1 and +1 and reports for which of them the branch that leads
+// straight back to the loop header (the skip) is taken.
+func signSkip(iff *ssa.If, header *ssa.BasicBlock) (skipNeg, skipPos, ok bool) {
+	skipOnTrue := iff.Block().Succs[0] == header
+	var subject ssa.Value
+	var eval func(v ssa.Value, s int64) (bool, bool)
+	signOf := func(call *ssa.Call, s int64) (int64, bool) {
+		callee := call.Call.StaticCallee()
+		if callee == nil || core.PkgPathOf(callee) != pkgDecimal || len(call.Call.Args) == 0 {
+			return 0, false
+		}
+		switch callee.Name() {
+		case "Sign":
+		case "Cmp":
+			if len(call.Call.Args) != 2 || !isDecimalZero(call.Call.Args[1]) {
+				return 0, false
+			}
+		default:
+			return 0, false
+		}
+		if subject == nil {
+			subject = call.Call.Args[0]
+		}
+		return s, true
+	}
+	eval = func(v ssa.Value, s int64) (bool, bool) {
+		switch x := v.(type) {
+		case *ssa.UnOp:
+			if x.Op == token.NOT {
+				r, ok := eval(x.X, s)
+				return !r, ok
+			}
+		case *ssa.Call:
+			callee := x.Call.StaticCallee()
+			if callee == nil || core.PkgPathOf(callee) != pkgDecimal || len(x.Call.Args) == 0 {
+				return false, false
+			}
+			zeroArg := len(x.Call.Args) == 2 && isDecimalZero(x.Call.Args[1])
+			switch callee.Name() {
+			case "IsZero":
+				return s == 0, true
+			case "IsPositive":
+				return s > 0, true
+			case "IsNegative":
+				return s < 0, true
+			case "LessThan":
+				return s < 0, zeroArg
+			case "LessThanOrEqual":
+				return s <= 0, zeroArg
+			case "GreaterThan":
+				return s > 0, zeroArg
+			case "GreaterThanOrEqual":
+				return s >= 0, zeroArg
+			case "Equal", "Equals":
+				return s == 0, zeroArg
+			}
+		case *ssa.BinOp:
+			var a, b int64
+			var okA, okB bool
+			get := func(o ssa.Value) (int64, bool) {
+				if k, ok := core.ConstInt(o); ok {
+					return k, true
+				}
+				if call, ok := o.(*ssa.Call); ok {
+					return signOf(call, s)
+				}
+				return 0, false
+			}
+			a, okA = get(x.X)
+			b, okB = get(x.Y)
+			if !okA || !okB {
+				return false, false
+			}
+			switch x.Op {
+			case token.EQL:
+				return a == b, true
+			case token.NEQ:
+				return a != b, true
+			case token.LSS:
+				return a < b, true
+			case token.LEQ:
+				return a <= b, true
+			case token.GTR:
+				return a > b, true
+			case token.GEQ:
+				return a >= b, true
+			}
+		}
+		return false, false
+	}
+	n, ok1 := eval(iff.Cond, -1)
+	ps, ok2 := eval(iff.Cond, 1)
+	if !ok1 || !ok2 {
+		return false, false, false
+	}
+	return n == skipOnTrue, ps == skipOnTrue, true
 }
 
 func isPtrToNamed(t types.Type, name string) bool {
